@@ -15,16 +15,36 @@
 //! read buffer that the decoder grows to the message awaited), `ReadAhead(n)` = FramedRead::with_capacity(n) (a
 //! connection read with a large read-ahead), `Direct` = the tokio_util Decoder contract itself (every segment is
 //! appended whole to the BytesMut, `decode` is called until it returns None, `decode_eof` at the end).
+//! LIMITS x KEEP-ALIVE RUNS (sub `edges`, and in `random`: heads filled up to 4096 - d bytes, keep-alive runs of up
+//! to 255 CRLFs, one cut k bytes in front of the end of every head): a head of 4080 .. 4096 bytes behind a run of
+//! 0 .. 255 keep-alive CRLFs, the run in the same segment as the head / in an earlier one / cut between CR and LF,
+//! every single cut position around the end of the head.
+//! THE CONNECTION (subs `conn`, `conn-random`): the same kind of stream written by a peer to a duplex-pipe
+//! connection of a running endpoint (world/stream.rs: ezk's real accept / receive task, FramedRead and managed
+//! transport table), accepted by ezk's listener or opened by ezk's connection factory; the application (a layer)
+//! is handed the requests and keeps each one for 0 / n further segments / until the end, an outbound connection's
+//! handle is dropped after n segments - so the connection changes between used and unused while messages (also
+//! larger than the 8 KiB read buffer) are partly received. Oracle there: the layer must be handed exactly the
+//! written requests, in order, each with the start line, header list and body of its datagram reading.
 //! Oracle: the stream, fed through the real StreamingDecoder by that driver in exactly that segmentation, must
 //! yield the same messages (start line, header name/value list, body) as each message alone through the datagram
 //! parser; the datagram result itself is cross-checked against the generator's record (body bytes, number of
 //! headers).
 //! Not asserted: behaviour for input the datagram parser rejects (invalid UTF-8 heads, LF-only line ends),
 //! several Content-Length headers, the kind of error, heads above 4096 bytes or bodies above 65535 bytes, how
-//! much memory the decoder uses.
+//! much memory the decoder uses, whether / when ezk closes a connection (an unused connection is legitimately
+//! closed after 32 s: connection cases stay below 21 s of virtual time), responses on a connection (only requests
+//! reach a layer), the order in which concurrently dispatched requests reach the application on a multi-threaded
+//! runtime (the world is single-threaded: dispatch order = arrival order).
 
 use crate::engine::*;
+use crate::world::stream::{mock_factory, mock_listener};
+use crate::world::{offline_builder, run_world, settle, WireLog};
 use bytes::{Bytes, BytesMut};
+use sip_core::transport::streaming::StreamingListenerBuilder;
+use sip_core::{Endpoint, IncomingRequest, Layer, MayTake};
+use sip_types::uri::sip::SipUri;
+use std::sync::Arc;
 use proptest::prelude::*;
 use serde::{Deserialize, Serialize};
 use sip_core::transport::streaming::verif::StreamingDecoder;
@@ -657,6 +677,7 @@ pub fn oracle_driven(msgs: &[GenMsg], keepalives: &[u8], cuts: &[usize], driver:
         if f.utf8_head { tags.push("utf8-head"); }
         if f.cut_in_char { tags.push("cut-in-char"); }
         if f.many_lines { tags.push("many-lines"); }
+        if msgs.iter().any(|m| m.head_len() >= 4090) { tags.push("head-at-limit"); }
         if f.over_buffered { tags.push("buffered>max-message"); }
         if tags.is_empty() { tags.push("plain"); }
         tags.join("+")
@@ -1006,7 +1027,8 @@ fn msg_strategy_with(body: BoxedStrategy<Vec<u8>>) -> BoxedStrategy<GenMsg> {
             prop_oneof![5 => Just(0usize), 2 => 1usize..5, 3 => 5usize..30],
         ),
         body,
-        prop_oneof![9 => Just(0usize), 1 => 3000usize..3800],
+        // padding of the head: none / one long header / filled up to 4096 - d bytes (d 0..7) = coded as 10000 + d
+        prop_oneof![18 => Just(0usize), 2 => 3000usize..3800, 3 => 10_000usize..10_008],
     )
         .prop_map(|(ssel, (fill, many, shape, many_at), decoys, utf8, pos, (nsel, ws_before, ws_after, fold, zeros), body, pad)| {
             let mut lines: Vec<String> = fill.iter().map(|f| FILLER[pick_idx(*f, FILLER.len())].to_string()).collect();
@@ -1018,7 +1040,7 @@ fn msg_strategy_with(body: BoxedStrategy<Vec<u8>>) -> BoxedStrategy<GenMsg> {
                 let at = pick_idx(u, lines.len() + 1);
                 lines.insert(at, UTF8_LINES[pick_idx(u.rotate_left(5), UTF8_LINES.len())].to_string());
             }
-            if pad > 0 {
+            if pad > 0 && pad < 10_000 {
                 // pad the head towards the 4096 limit with one long header
                 lines.push(format!("X-Pad: {}", "p".repeat(pad)));
             }
@@ -1067,6 +1089,15 @@ fn msg_strategy_with(body: BoxedStrategy<Vec<u8>>) -> BoxedStrategy<GenMsg> {
                     m.lines.remove(i);
                 }
             }
+            if pad >= 10_000 {
+                // fill the head up to exactly 4096 - d bytes with one more header (when there is room for one)
+                let want = 4096 - (pad - 10_000);
+                let room = want.saturating_sub(m.head_len());
+                if room >= "X-Fill: ".len() + 2 {
+                    let at = pick_idx(pos.rotate_left(3), m.lines.len() + 1);
+                    m.lines.insert(at, format!("X-Fill: {}", "f".repeat(room - "X-Fill: ".len() - 2)));
+                }
+            }
             m
         })
         .boxed()
@@ -1095,6 +1126,10 @@ pub enum Seg {
     MidFirst,
     /// a single cut, in the middle of the last message
     MidLast,
+    /// one cut k bytes in front of the end of every head (k = 0: exactly behind the head)
+    NearHeadEnd(u8),
+    /// one cut in the middle of every body: every segment carries the end of one message and the beginning of the next
+    MidBodies,
 }
 
 impl Seg {
@@ -1111,6 +1146,8 @@ impl Seg {
             Seg::BeforeLastLine => layout.line_ends.iter().filter_map(|l| l.len().checked_sub(2).map(|i| l[i])).collect(),
             Seg::MidFirst => layout.spans.first().map(|(s, _, e, _)| (s + e) / 2).into_iter().collect(),
             Seg::MidLast => layout.spans.last().map(|(s, _, e, _)| (s + e) / 2).into_iter().collect(),
+            Seg::NearHeadEnd(k) => layout.spans.iter().map(|(s, he, _, _)| he.saturating_sub(*k as usize).max(s + 1)).collect(),
+            Seg::MidBodies => layout.spans.iter().filter(|(_, he, e, _)| e > he).map(|(_, he, e, _)| (he + e) / 2).collect(),
         };
         cuts.retain(|c| *c > 0 && *c < total);
         cuts.sort();
@@ -1143,6 +1180,8 @@ fn seg_strategy() -> BoxedStrategy<Seg> {
         1 => Just(Seg::BeforeLastLine),
         1 => Just(Seg::MidFirst),
         1 => Just(Seg::MidLast),
+        2 => (0u8..13).prop_map(Seg::NearHeadEnd),
+        1 => Just(Seg::MidBodies),
     ]
     .boxed()
 }
@@ -1164,7 +1203,8 @@ pub fn strategy() -> BoxedStrategy<Case> {
             // pipelines of mostly large messages: far more than one maximum-size message on the connection
             1 => prop::collection::vec(msg_strategy_with(big_body_strategy()), 2..6),
         ],
-        prop::collection::vec(prop_oneof![4 => Just(0u8), 2 => Just(1u8), 2 => Just(2u8), 1 => Just(3u8)], 8),
+        // CRLF keep-alives before / between / behind the messages: mostly 0..3, sometimes a longer run
+        prop::collection::vec(prop_oneof![8 => Just(0u8), 4 => Just(1u8), 4 => Just(2u8), 2 => Just(3u8), 2 => 4u8..10, 1 => 10u8..=255], 8),
         prop_oneof![
             4 => Just(CutSel::Shape(Seg::Whole, vec![])),
             2 => Just(CutSel::Shape(Seg::Dribble, vec![])),
@@ -1430,6 +1470,485 @@ pub fn check_pipe(case: &PipeCase, out: &mut CaseOut) {
     oracle_driven(&msgs, &keepalives, &cuts, case.driver, out);
 }
 
+// ---------------------------------------------------------------------------------------------
+// the limits (head of 4096 - d bytes) x keep-alive runs in front x a cut near the end of the head, enumerated
+
+/// One message whose head has exactly `head_len` bytes, behind `ka` keep-alive CRLFs (optionally behind a small
+/// message), with at most one cut near the end of its head and at most one cut at the keep-alive run
+#[derive(Serialize, Deserialize, Clone, Debug, Hash)]
+pub struct EdgeCase {
+    pub head_len: u16,
+    pub body_len: u32,
+    /// keep-alive CRLFs directly in front of the message
+    pub ka: u8,
+    /// a small message in front of the keep-alives (they are then keep-alives BETWEEN messages)
+    pub pre: bool,
+    /// the cut inside the message: that many bytes in front of the end of its head (negative: behind it, in the
+    /// body or the following bytes); None = no cut there
+    pub cut_back: Option<i16>,
+    /// how the keep-alive run is segmented: 0 = in one segment with what follows, 1 = a cut directly behind the run
+    /// (the run in an earlier segment), 2 = a cut in the middle of the run between CR and LF, 3 = a cut directly in
+    /// front of the run
+    pub ka_cut: u8,
+    pub driver: Driver,
+}
+
+/// `pipe_msg` with the head padded to exactly `head_len` bytes (as far as the ordinary headers leave room)
+fn sized_msg(i: usize, body_len: usize, head_len: usize) -> GenMsg {
+    let mut m = pipe_msg(i, body_len, 0);
+    let overhead = "X-Pad: ".len() + 2;
+    if head_len >= m.head_len() + overhead {
+        let pad = head_len - m.head_len() - overhead;
+        m.lines.insert(2 + i % 3, format!("X-Pad: {}", "p".repeat(pad)));
+    }
+    m
+}
+
+pub fn edge_cases(tier: Tier) -> Vec<EdgeCase> {
+    let heads: Vec<u16> = tier.pick(vec![4096, 4095, 4094, 4093, 4092, 4090, 4080, 2048], (4080..=4096).chain([300, 2048, 4000, 4050]).collect());
+    let kas: Vec<u8> = tier.pick(vec![0, 1, 2, 3, 4, 5, 6, 8, 16, 100, 255], (0..=20).chain([50, 100, 200, 255]).collect());
+    let mut cut_backs: Vec<Option<i16>> = vec![None];
+    cut_backs.extend((tier.pick(-2i16, -6)..=tier.pick(10i16, 40)).map(Some));
+    let drivers: Vec<Driver> = tier.pick(vec![Driver::Framed, Driver::Direct], vec![Driver::Framed, Driver::Direct, Driver::ReadAhead(65_536)]);
+    let mut out = vec![];
+    for &head_len in &heads {
+        for &ka in &kas {
+            for &cut_back in &cut_backs {
+                for ka_cut in 0u8..4 {
+                    if ka == 0 && ka_cut > 1 {
+                        continue; // no run to cut: 0 and 1 are (no cut, cut in front of the message)
+                    }
+                    for pre in [false, true] {
+                        if !pre && ka_cut == 3 {
+                            continue; // the run starts the stream
+                        }
+                        for &driver in &drivers {
+                            let mut bodies = vec![if (head_len as usize + ka as usize) % 2 == 0 { 0u32 } else { 5 }];
+                            if head_len == 4096 && (ka == 0 || ka == 4) && cut_back.map_or(true, |c| c % 3 == 0) {
+                                bodies.push(65_535);
+                            }
+                            for body_len in bodies {
+                                out.push(EdgeCase { head_len, body_len, ka, pre, cut_back, ka_cut, driver });
+                            }
+                        }
+                    }
+                }
+            }
+        }
+    }
+    out
+}
+
+pub fn check_edge(case: &EdgeCase, out: &mut CaseOut) {
+    let mut msgs = vec![];
+    let mut keepalives = vec![];
+    if case.pre {
+        msgs.push(sized_msg(0, 3, 0));
+        keepalives.push(0u8);
+    }
+    msgs.push(sized_msg(msgs.len(), case.body_len.min(65_535) as usize, case.head_len.min(4096) as usize));
+    keepalives.push(case.ka);
+    let layout = Layout::new(&msgs, &keepalives);
+    let (start, head_end, _, _) = *layout.spans.last().expect("one message");
+    let mut cuts = vec![];
+    if let Some(back) = case.cut_back {
+        let at = head_end as i64 - back as i64;
+        if at > start as i64 {
+            cuts.push(at as usize);
+        }
+    }
+    let ka_start = start - 2 * case.ka as usize;
+    match case.ka_cut {
+        1 => cuts.push(start),
+        2 => cuts.push(ka_start + (case.ka as usize / 2) * 2 + 1),
+        3 => cuts.push(ka_start),
+        _ => {}
+    }
+    let total = layout.stream.len();
+    cuts.retain(|c| *c > 0 && *c < total);
+    cuts.sort();
+    cuts.dedup();
+    if case.ka >= 3 {
+        out.class("run of >=3 keep-alive CRLFs in front of a message");
+    }
+    if case.head_len >= 4090 {
+        out.class("head within 6 bytes of the 4096 limit");
+        if case.ka >= 3 && case.ka_cut == 0 && case.cut_back.map_or(false, |c| c > 0 && c < 12) {
+            out.class("keep-alive run and a head at the limit in one segment, cut <12 bytes before the end of the head");
+        }
+    }
+    oracle_driven(&msgs, &keepalives, &cuts, case.driver, out);
+}
+
+// ---------------------------------------------------------------------------------------------
+// the same stream through a real connection: ezk's receive task (world/stream.rs) and the application's handling
+// of what it is handed
+
+/// Messages written by a peer to a connection of a running endpoint; the application (a layer) keeps each request
+/// for a while and lets go of it: the receive task sees the connection change between used and unused while the
+/// segments arrive.
+#[derive(Serialize, Deserialize, Clone, Debug, Hash)]
+pub struct ConnCase {
+    /// body length of each message (requests with their own branch and CSeq)
+    pub bodies: Vec<u32>,
+    /// 0: ordinary heads, 1: heads of exactly 4096 bytes
+    #[serde(default)]
+    pub head: u8,
+    #[serde(default)]
+    pub ka_front: u8,
+    #[serde(default)]
+    pub ka_between: u8,
+    pub seg: Seg,
+    /// what the application does with the k-th request it is handed (cyclic): 0 = lets go of it at once (inside the
+    /// layer), n = keeps it while the next n segments arrive, 255 = keeps it until everything has been written
+    pub hold: Vec<u8>,
+    /// None: the connection was accepted by ezk's listener (nothing refers to it at first);
+    /// Some(n): ezk opened it (`Endpoint::select_transport` through the connection factory), the handle obtained is
+    /// dropped after n segments (255: kept until the end)
+    #[serde(default)]
+    pub outbound: Option<u8>,
+    /// virtual time between two segments (the whole case stays below the 32 s an unused connection is kept)
+    #[serde(default)]
+    pub gap_ms: u16,
+    #[serde(default)]
+    pub rng: u8,
+}
+
+/// At most that many segments per connection case (a finer segmentation is thinned evenly)
+const CONN_MAX_SEGMENTS: usize = 40;
+
+#[derive(Default)]
+struct ConnShared {
+    /// what the layer was handed, in order
+    seen: Vec<Parsed>,
+    /// requests the application still holds: (number of written segments at which it lets go, request)
+    held: Vec<(usize, IncomingRequest)>,
+    hold: Vec<u8>,
+    segments_written: usize,
+    /// total size of the message the stream written so far ends in the middle of
+    partial: Option<usize>,
+    /// the handle of an outbound connection is still alive
+    extra_handle: bool,
+    /// the last reference to the connection went away while a message was partly received: size of the largest such message
+    unused_mid_message: Option<usize>,
+}
+
+impl ConnShared {
+    /// called whenever a reference to the connection has gone away
+    fn note_release(&mut self) {
+        if self.held.is_empty() && !self.extra_handle {
+            if let Some(size) = self.partial {
+                self.unused_mid_message = Some(self.unused_mid_message.unwrap_or(0).max(size));
+            }
+        }
+    }
+}
+
+struct HoldLayer {
+    shared: Arc<parking_lot::Mutex<ConnShared>>,
+}
+
+#[async_trait::async_trait]
+impl Layer for HoldLayer {
+    fn name(&self) -> &'static str {
+        "c03-app"
+    }
+    async fn receive(&self, _endpoint: &Endpoint, request: MayTake<'_, IncomingRequest>) {
+        let req = request.take();
+        let parsed = Parsed {
+            line: req.line.default_print_ctx().to_string(),
+            headers: req.headers.iter().map(|(n, v)| (n.as_print_str().to_string(), v.to_string())).collect(),
+            body: req.body.to_vec(),
+        };
+        let let_go = {
+            let mut s = self.shared.lock();
+            let k = s.seen.len();
+            s.seen.push(parsed);
+            let hold = if s.hold.is_empty() { 0 } else { s.hold[k % s.hold.len()] };
+            if hold == 0 {
+                s.note_release();
+                Some(req)
+            } else {
+                let at = if hold == 255 { usize::MAX } else { s.segments_written + 1 + hold as usize };
+                s.held.push((at, req));
+                None
+            }
+        };
+        drop(let_go);
+    }
+}
+
+struct ConnRun {
+    seen: Vec<Parsed>,
+    unused_mid_message: Option<usize>,
+    closed: bool,
+    setup_error: Option<String>,
+    segments: usize,
+}
+
+fn conn_cuts(case: &ConnCase, layout: &Layout) -> Vec<usize> {
+    let mut cuts = match &case.seg {
+        Seg::Dribble => Seg::Every(1).cuts(layout),
+        s => s.cuts(layout),
+    };
+    if cuts.len() + 1 > CONN_MAX_SEGMENTS {
+        // keep the first and last cuts (they surround the first / last message ends), thin the rest evenly
+        let n = cuts.len();
+        let keep: std::collections::BTreeSet<usize> = (0..CONN_MAX_SEGMENTS - 1).map(|i| i * (n - 1) / (CONN_MAX_SEGMENTS - 2)).collect();
+        cuts = keep.into_iter().map(|i| cuts[i]).collect();
+    }
+    cuts
+}
+
+pub fn check_conn(case: &ConnCase, out: &mut CaseOut) {
+    let msgs: Vec<GenMsg> = case.bodies.iter().take(12).enumerate().map(|(i, b)| sized_msg(i, (*b).min(65_535) as usize, if case.head == 1 { 4096 } else { 0 })).collect();
+    if msgs.is_empty() {
+        return;
+    }
+    let mut keepalives = vec![case.ka_between; msgs.len()];
+    keepalives[0] = case.ka_front;
+    let layout = Layout::new(&msgs, &keepalives);
+    let cuts = conn_cuts(case, &layout);
+    let mut reference = vec![];
+    for m in &msgs {
+        match datagram_reference(&m.bytes()) {
+            Some(p) => reference.push(p),
+            None => {
+                out.fail("c03.harness/datagram-rejects-generated-message", format!("datagram parser rejects {:?}", String::from_utf8_lossy(&m.bytes())));
+                return;
+            }
+        }
+    }
+
+    let shared: Arc<parking_lot::Mutex<ConnShared>> = Default::default();
+    shared.lock().hold = case.hold.clone();
+    let run: ConnRun = {
+        let shared = shared.clone();
+        let stream = layout.stream.clone();
+        let spans = layout.spans.clone();
+        let cuts = cuts.clone();
+        let outbound = case.outbound;
+        let gap_ms = case.gap_ms;
+        run_world(case.rng as u64, |clock| async move {
+            let log = WireLog::new(clock);
+            let (factory, probe) = mock_factory::<false>(clock, &log);
+            let (lb, dialer) = mock_listener::<false>(clock, &log, "10.0.0.1:5060");
+            let mut b = offline_builder();
+            b.add_transport_factory(Arc::new(factory));
+            b.add_layer(HoldLayer { shared: shared.clone() });
+            lb.spawn(&mut b, "10.0.0.1:5060").await.expect("listener");
+            let endpoint = b.build();
+            settle().await;
+            let fail = |e: String| ConnRun { seen: vec![], unused_mid_message: None, closed: false, setup_error: Some(e), segments: 0 };
+            let mut extra = None;
+            let mut conn = if outbound.is_some() {
+                let uri: SipUri = "sip:peer@192.0.2.50:5060;transport=tcp".parse().expect("uri");
+                match endpoint.select_transport(&uri).await {
+                    Ok((h, _)) => extra = Some(h),
+                    Err(e) => return fail(format!("select_transport: {e}")),
+                }
+                shared.lock().extra_handle = true;
+                let c = probe.conns.lock().pop();
+                match c {
+                    Some(c) => c,
+                    None => return fail("the factory created no connection".into()),
+                }
+            } else {
+                dialer.dial("192.0.2.50:33333")
+            };
+            settle().await;
+            if outbound == Some(0) {
+                shared.lock().extra_handle = false;
+                extra = None;
+                settle().await;
+            }
+
+            let mut bounds = cuts.clone();
+            bounds.push(stream.len());
+            // the whole case stays well below the 32 s after which an unused connection is closed
+            let gap = (gap_ms as u64).min(20_000 / bounds.len() as u64);
+            let mut prev = 0;
+            let mut segments = 0;
+            for (j, b) in bounds.iter().enumerate() {
+                shared.lock().partial = spans.iter().find(|(s, _, e, _)| *s < *b && *b < *e).map(|(s, _, e, _)| e - s);
+                if !conn.write(&stream[prev..*b]).await {
+                    break;
+                }
+                prev = *b;
+                segments += 1;
+                settle().await;
+                if gap > 0 {
+                    clock.advance(gap).await;
+                    settle().await;
+                }
+                // the application lets go of what it kept long enough
+                let due: Vec<IncomingRequest> = {
+                    let mut s = shared.lock();
+                    s.segments_written = j + 1;
+                    let n = j + 1;
+                    let (due, keep): (Vec<_>, Vec<_>) = std::mem::take(&mut s.held).into_iter().partition(|(at, _)| *at <= n);
+                    s.held = keep;
+                    if !due.is_empty() {
+                        s.note_release();
+                    }
+                    due.into_iter().map(|(_, r)| r).collect()
+                };
+                drop(due);
+                if outbound == Some((j + 1).min(254) as u8) && extra.is_some() {
+                    let mut s = shared.lock();
+                    s.extra_handle = false;
+                    s.note_release();
+                    drop(s);
+                    extra = None;
+                }
+                settle().await;
+            }
+            clock.advance(100).await;
+            settle().await;
+            let seen = shared.lock().seen.clone();
+            let closed = conn.is_eof();
+            // wind down
+            let rest = std::mem::take(&mut shared.lock().held);
+            drop(rest);
+            drop(extra);
+            settle().await;
+            let unused_mid_message = shared.lock().unused_mid_message;
+            drop(endpoint);
+            ConnRun { seen, unused_mid_message, closed, setup_error: None, segments }
+        })
+    };
+    if let Some(e) = run.setup_error {
+        out.fail("c03.harness/conn-setup", e);
+        return;
+    }
+
+    // classes
+    let biggest = layout.spans.iter().map(|(s, _, e, _)| e - s).max().unwrap_or(0);
+    out.class(if case.outbound.is_some() { "conn: opened by ezk (handle dropped while segments arrive)" } else { "conn: accepted by ezk" });
+    if run.segments > 1 {
+        out.class("conn: several segments");
+    }
+    if biggest > 8192 {
+        out.class("conn: message larger than the 8 KiB read buffer");
+    }
+    if case.hold.iter().any(|h| *h == 0) {
+        out.class("conn: application lets go of a request at once");
+    }
+    if case.hold.iter().any(|h| *h != 0 && *h != 255) {
+        out.class("conn: application lets go of a request some segments later");
+    }
+    let tag = match run.unused_mid_message {
+        Some(size) if size > 8192 => {
+            out.class("conn: last reference dropped while a message >8 KiB is partly received");
+            "unused-amid->8KiB-message"
+        }
+        Some(_) => {
+            out.class("conn: last reference dropped while a message <=8 KiB is partly received");
+            "unused-amid-message"
+        }
+        None => "plain",
+    };
+    if run.unused_mid_message.is_some() || cuts.iter().any(|c| layout.spans.iter().any(|(s, _, e, _)| *c > *s && *c < *e)) {
+        out.nontrivial(&case);
+    }
+
+    // verdict: exactly the written messages, in order, each equal to its datagram reading. Messages are told
+    // apart by their CSeq header (the generator numbers them), so that one lost message is one failure
+    let cseq_of = |p: &Parsed| p.headers.iter().find(|(n, _)| n.eq_ignore_ascii_case("cseq")).map(|(_, v)| v.clone());
+    let how = format!("{} segments (cuts {}), stream {} bytes, hold {:?}, outbound {:?}, connection {} afterwards", run.segments, show_cuts(&cuts), layout.stream.len(), case.hold, case.outbound, if run.closed { "CLOSED by ezk" } else { "open" });
+    let mut got_idx = vec![];
+    let mut seen_once = vec![false; reference.len()];
+    for d in &run.seen {
+        let idx = cseq_of(d).and_then(|c| reference.iter().position(|r| cseq_of(r).as_deref() == Some(c.as_str())));
+        match idx {
+            Some(i) if !seen_once[i] => {
+                seen_once[i] = true;
+                got_idx.push(i);
+                let r = &reference[i];
+                if d.line != r.line {
+                    out.fail(format!("c03.conn/differs-start-line[{tag}]"), format!("message {i}: {:?} vs datagram {:?} ({how})", d.line, r.line));
+                }
+                if d.headers != r.headers {
+                    let at = d.headers.iter().zip(&r.headers).position(|(a, b)| a != b).unwrap_or(d.headers.len().min(r.headers.len()));
+                    out.fail(format!("c03.conn/differs-headers[{tag}]"), format!("message {i}: first difference at header {at}: {:?} vs {:?} ({how})", d.headers.get(at), r.headers.get(at)));
+                }
+                if d.body != r.body {
+                    out.fail(format!("c03.conn/differs-body[{tag}]"), format!("message {i}: body {} bytes vs datagram {} bytes ({how})", d.body.len(), r.body.len()));
+                }
+            }
+            _ => out.fail(format!("c03.conn/extra[{tag}]"), format!("the application was handed a request that was not written (or twice): {:?} ({how})", d.line)),
+        }
+    }
+    let missing: Vec<usize> = (0..reference.len()).filter(|i| !seen_once[*i]).collect();
+    if !missing.is_empty() {
+        out.fail(format!("c03.conn/missing[{tag}]"), format!("{} messages written, the application was never handed message(s) {missing:?} ({how})", reference.len()));
+    }
+    if got_idx.windows(2).any(|w| w[0] > w[1]) {
+        out.fail(format!("c03.conn/order[{tag}]"), format!("messages handed to the application in the order {got_idx:?} ({how})"));
+    }
+}
+
+pub fn conn_cases(tier: Tier) -> Vec<ConnCase> {
+    const M: u32 = 65_535;
+    let mut profiles: Vec<(Vec<u32>, u8)> = vec![
+        (vec![5, 20_000], 0),
+        (vec![20_000], 0),
+        (vec![5, 20_000, 5], 0),
+        (vec![0, 9_000, 0, 9_000], 0),
+        (vec![M, M], 0),
+        (vec![100, 100, 100], 0),
+        // control: nothing larger than the read buffer
+        (vec![5, 7_000], 0),
+        (vec![30_000, 5, 30_000], 0),
+        (vec![5, 5_000, 5], 1),
+        (vec![0, M, 0], 1),
+    ];
+    if tier == Tier::Thorough {
+        profiles.extend([(vec![5, 8_000], 0), (vec![5, 8_300], 0), (vec![M; 4], 0), (vec![10; 10], 0), (vec![5, 40_000, 5, 40_000, 5], 0), (vec![4_000; 6], 1)]);
+    }
+    let mut segs = vec![Seg::Whole, Seg::PerMessage, Seg::MidBodies, Seg::MidHeads, Seg::MidFirst, Seg::MidLast, Seg::Every(1000), Seg::Every(8192), Seg::Every(16_384), Seg::NearHeadEnd(1)];
+    if tier == Tier::Thorough {
+        segs.extend([Seg::Every(100), Seg::Every(4096), Seg::Every(65_536), Seg::NearHeadEnd(0), Seg::AfterFirstLine, Seg::BeforeLastLine, Seg::LinesPer(2)]);
+    }
+    let holds: Vec<Vec<u8>> = vec![vec![0], vec![255], vec![1], vec![2], vec![0, 255], vec![255, 0], vec![1, 0]];
+    let mut out = vec![];
+    let mut k = 0usize;
+    for (bodies, head) in &profiles {
+        for seg in &segs {
+            for hold in &holds {
+                for outbound in [None, Some(0u8), Some(1), Some(2), Some(255)] {
+                    for gap_ms in [0u16, 50] {
+                        k += 1;
+                        // quick: every (profile, segmentation, hold pattern, gap) on an accepted connection; the
+                        // handle lifetimes of a connection opened by ezk thinned to a third
+                        if tier == Tier::Quick && outbound.is_some() && k % 3 != 0 {
+                            continue;
+                        }
+                        out.push(ConnCase { bodies: bodies.clone(), head: *head, ka_front: (k % 3) as u8, ka_between: ((k / 3) % 3) as u8, seg: seg.clone(), hold: hold.clone(), outbound, gap_ms, rng: (k % 251) as u8 });
+                    }
+                }
+            }
+        }
+    }
+    out
+}
+
+pub fn conn_strategy() -> BoxedStrategy<ConnCase> {
+    const SIZES: &[u32] = &[0, 5, 100, 4_000, 7_900, 8_192, 9_000, 20_000, 40_000, 65_535];
+    (
+        prop::collection::vec(any::<u16>().prop_map(|s| SIZES[pick_idx(s, SIZES.len())]), 1..6),
+        prop_oneof![4 => Just(0u8), 1 => Just(1u8)],
+        (0u8..4, 0u8..4),
+        prop_oneof![6 => seg_strategy(), 3 => Just(Seg::MidBodies), 1 => Just(Seg::Whole), 1 => Just(Seg::Dribble)],
+        prop::collection::vec(prop_oneof![4 => Just(0u8), 2 => Just(1u8), 1 => Just(2u8), 1 => 3u8..8, 2 => Just(255u8)], 1..4),
+        prop_oneof![3 => Just(None), 2 => (0u8..6).prop_map(Some), 1 => Just(Some(255u8))],
+        prop_oneof![Just(0u16), Just(1u16), Just(50u16), Just(500u16)],
+        any::<u8>(),
+    )
+        .prop_map(|(bodies, head, (ka_front, ka_between), seg, hold, outbound, gap_ms, rng)| ConnCase { bodies, head, ka_front, ka_between, seg, hold, outbound, gap_ms, rng })
+        .boxed()
+}
+
 fn seed_corpus_stream(dir: &std::path::Path) {
     // artifacts of earlier campaigns (repaired defects): re-run first by every campaign
     if let Ok(rd) = std::fs::read_dir("/verif/regress/fuzz-sip_stream") {
@@ -1463,22 +1982,26 @@ pub fn property() -> Property {
     Property {
         fuzz: vec![FuzzStage { target: "sip_stream", runs: 800_000, max_len: 9000, seed_corpus: seed_corpus_stream }],
         id: "C03",
-        rule: "a case = 1..4 SIP messages (5%: a pipeline of 2..5 messages with mostly 20000..65535 byte bodies, up to ~0.33 MB) (heads <= 4096 B, bodies <= 65535 B; Content-Length spelled in any case / compact l,L / blanks and tabs around the colon / folded (also with blanks before and behind the fold) / any position / value with 0..29 leading zeros (1*DIGIT: up to 34 digits, more than u16, u32, u64 hold), or absent on a bodiless message; decoy headers; non-ASCII UTF-8 (2-, 3-, 4-byte characters) in display names, TEXT-UTF8 header values, comments and reason phrases in half of the messages; in 23% of the messages a block of 1..999 short header lines (X-n: v / 4-byte `q:` / folded / repeated ordinary headers; as many as fit into 4096 bytes) so that heads have up to ~1000 lines; bodies containing CRLFCRLF and fake messages) + 0..3 CRLF keep-alives before/between/after + a segmentation + a driver (50% tokio_util FramedRead::new as in ezk's receive task, 20% FramedRead::with_capacity(16 KiB..1 MiB) = read-ahead, 30% the Decoder contract directly: each segment appended whole to the BytesMut, decode until None, decode_eof at the end); the decoder is the real StreamingDecoder (behind a transparent probe that records the buffered byte count per call); oracle = each message alone through the datagram parser plus the generator's own record. cuts1: EVERY 1-cut of 39 corpus messages and of 2-message pipelines; cuts2: every 2-cut (thorough; strided in quick); lines (enumerated): head line count n (0..960: around every power of two 16..512 and more) x line shape (4) x Content-Length first / amid / last / absent x single message or pair x segmentation (whole, per message, mid-head, behind the first line, before the last line, 64 / 1000 byte segments, dribble, one segment per k head lines for k in 1..600 around 128 and 256) x driver (FramedRead::new, direct); pipes (enumerated): 14 body-size profiles (1..6 maximum bodies, 30000+100+30000+0+20000, rising / falling sizes, 20 x 4000, 40 and 200 small messages) x heads (ordinary, exactly 4096 bytes, 300 lines) x keep-alives (none, 2 between, 3 in front + 1 between) x segmentation (whole, per message, 1000 / 8192 / 65536 / 100000 byte segments, one cut in the first / last message) x driver (FramedRead::new, read-ahead 1 MiB, direct); random: generated sequences with k cuts anywhere, k cuts at landmarks (inside a multi-byte character of a head, inside / around the Content-Length value and line, around head end, message end and keep-alive runs), 1-byte dribble, single write, equal segments of 2..100000 bytes, per message, per k head lines (k 1..600), mid-head, behind first / before last head line, one cut in the first / last message. Non-trivial = a cut inside a head after the Content-Length line, inside a body, at a keep-alive or between the bytes of a multi-byte character of a head, or a decoy header, or a non-canonical Content-Length spelling (name, blanks, fold, leading zeros), or a head with more than 32 lines, or a decode call that found more than 4096+65535 bytes buffered, or a read that holds the ends of several messages; distinct by (messages, keep-alives, cuts, driver).",
+        rule: "a case = 1..4 SIP messages (5%: a pipeline of 2..5 messages with mostly 20000..65535 byte bodies, up to ~0.33 MB) (heads <= 4096 B, bodies <= 65535 B; Content-Length spelled in any case / compact l,L / blanks and tabs around the colon / folded (also with blanks before and behind the fold) / any position / value with 0..29 leading zeros (1*DIGIT: up to 34 digits, more than u16, u32, u64 hold), or absent on a bodiless message; decoy headers; non-ASCII UTF-8 (2-, 3-, 4-byte characters) in display names, TEXT-UTF8 header values, comments and reason phrases in half of the messages; in 23% of the messages a block of 1..999 short header lines (X-n: v / 4-byte `q:` / folded / repeated ordinary headers; as many as fit into 4096 bytes) so that heads have up to ~1000 lines; bodies containing CRLFCRLF and fake messages) + 0..3 CRLF keep-alives before/between/after + a segmentation + a driver (50% tokio_util FramedRead::new as in ezk's receive task, 20% FramedRead::with_capacity(16 KiB..1 MiB) = read-ahead, 30% the Decoder contract directly: each segment appended whole to the BytesMut, decode until None, decode_eof at the end); the decoder is the real StreamingDecoder (behind a transparent probe that records the buffered byte count per call); oracle = each message alone through the datagram parser plus the generator's own record. cuts1: EVERY 1-cut of 39 corpus messages and of 2-message pipelines; cuts2: every 2-cut (thorough; strided in quick); lines (enumerated): head line count n (0..960: around every power of two 16..512 and more) x line shape (4) x Content-Length first / amid / last / absent x single message or pair x segmentation (whole, per message, mid-head, behind the first line, before the last line, 64 / 1000 byte segments, dribble, one segment per k head lines for k in 1..600 around 128 and 256) x driver (FramedRead::new, direct); pipes (enumerated): 14 body-size profiles (1..6 maximum bodies, 30000+100+30000+0+20000, rising / falling sizes, 20 x 4000, 40 and 200 small messages) x heads (ordinary, exactly 4096 bytes, 300 lines) x keep-alives (none, 2 between, 3 in front + 1 between) x segmentation (whole, per message, 1000 / 8192 / 65536 / 100000 byte segments, one cut in the first / last message) x driver (FramedRead::new, read-ahead 1 MiB, direct); edges (enumerated): head of exactly 4096 - d bytes (d 0..6, 16; 2048) x run of 0..6 / 8 / 16 / 100 / 255 keep-alive CRLFs in front x behind a small message or first on the connection x the run in one segment with the head / cut directly behind / between CR and LF / directly in front x no cut or one cut at every offset from 10 bytes before to 2 bytes behind the end of the head x body 0 / 5 / 65535 x driver (FramedRead::new, direct); conn (enumerated) and conn-random (sampled): 1..5 requests (bodies 0..65535, heads ordinary or exactly 4096 bytes, own branch and CSeq) written by a peer to a duplex-pipe connection of a running endpoint (ezk's real accept / receive task) x keep-alives x segmentation (whole, per message, mid-body = every segment ends one message and begins the next, mid-head, near head end, 1000 / 8192 / 16384 byte segments, one cut in first / last message, at most 40 segments) x what the application does with each request it is handed (lets go at once / after 1, 2.. further segments / at the end, cyclic patterns) x connection accepted by ezk or opened by ezk with the obtained handle dropped after 0, 1, 2.. segments or never x 0 / 1 / 50 / 500 ms between segments; oracle there = the layer is handed exactly the written requests, in order, equal to their datagram reading; random: generated sequences with k cuts anywhere, k cuts at landmarks (inside a multi-byte character of a head, inside / around the Content-Length value and line, around head end, message end and keep-alive runs), 1-byte dribble, single write, equal segments of 2..100000 bytes, per message, per k head lines (k 1..600), mid-head, behind first / before last head line, one cut in the first / last message, one cut 0..12 bytes before the end of every head, mid-body; 12% of the messages have their head filled to exactly 4096 - d bytes (d 0..7); keep-alive runs 0..3 mostly, 4..9 and 10..255 sometimes. Non-trivial (conn subs) = the last reference to the connection is dropped while a message is partly received, or a cut inside a message. Non-trivial (other subs) = a cut inside a head after the Content-Length line, inside a body, at a keep-alive or between the bytes of a multi-byte character of a head, or a decoy header, or a non-canonical Content-Length spelling (name, blanks, fold, leading zeros), or a head with more than 32 lines, or a decode call that found more than 4096+65535 bytes buffered, or a read that holds the ends of several messages; distinct by (messages, keep-alives, cuts, driver).",
         assumptions: vec![
             "line ends are CRLF (LF-only heads are outside the generated domain)",
             "heads are valid UTF-8 (the datagram parser named as reference rejects anything else); Content-Length values are 1*DIGIT without sign or trailing blanks",
             "the datagram parser (reference named by the statement) is taken as given; its body and header count are cross-checked against the generator's record",
             "the class / signature tag cut-in-char also counts the read boundaries the decoder really saw (a segment larger than the free read buffer is handed out in several reads)",
             "`any segmentation` is taken at the decoder's interface: how many bytes are in the buffer when decode is called is decided by the segmentation AND by the framing driver's read-ahead; besides FramedRead::new (today's wiring, which never buffers more than the message awaited) the same StreamingDecoder is driven with a large read-ahead and by the plain tokio_util Decoder contract (decode may be called with any amount of buffered data). The statement bounds head and body of each message, not the number of header lines and not the length of the sequence",
-            "the signature tags many-lines (a head with more than 32 physical lines) and buffered>max-message (a decode call found more than 4096+65535 bytes buffered, measured by the probe) name the dimension a failure lives in",
+            "the signature tag head-at-limit says that a head of the case has 4090..4096 bytes; the signature tags many-lines (a head with more than 32 physical lines) and buffered>max-message (a decode call found more than 4096+65535 bytes buffered, measured by the probe) name the dimension a failure lives in",
             "hook H1 re-exports the private StreamingDecoder",
+            "conn subs: the endpoint runs in the single-threaded simulated world; `receives` is observed at a layer (first point where the application sees a request), so only requests are written there; messages are told apart by the CSeq number the generator gives them; a case lasts < 21 s of virtual time so that the 32 s idle close of an unused connection (legitimate) cannot interfere; the signature tag unused-amid-(>8KiB-)message says that, by the harness's own bookkeeping of what it wrote and what the application still held, the last reference to the connection went away while a message was partly received",
         ],
-        explanation: "cuts1 and (thorough) cuts2 are exhaustive over the stated corpus sub-space; lines and pipes are full products of the listed values (halved by a parity rule in quick); random is sampled. Not asserted: anything about messages the datagram parser rejects, several Content-Length headers in one message, what the error is when a stream is refused, memory use, behaviour for heads above 4096 or bodies above 65535 bytes.",
+        explanation: "cuts1 and (thorough) cuts2 are exhaustive over the stated corpus sub-space; lines, pipes, edges and conn are full products of the listed values (thinned by parity rules in quick); random and conn-random are sampled. Not asserted: anything about messages the datagram parser rejects, several Content-Length headers in one message, what the error is when a stream is refused, memory use, behaviour for heads above 4096 or bodies above 65535 bytes.",
         subs: vec![
             enum_sub("cuts1", cuts1_cases, check_corpus),
             enum_sub("cuts2", cuts2_cases, check_corpus),
             enum_sub("lines", lines_cases, check_lines),
             enum_sub("pipes", pipe_cases, check_pipe),
+            enum_sub("edges", edge_cases, check_edge),
+            enum_sub("conn", conn_cases, check_conn),
+            prop_sub("conn-random", conn_strategy, 40, 1500, check_conn),
             prop_sub("random", strategy, 1500, 30000, check),
         ],
     }
